@@ -32,6 +32,11 @@ DATA_CLASSES = {"FloatData": "float", "IntegerData": "int", "BooleanData": "bool
                 "TextData": "text"}
 
 
+# public setters that are views of stored attributes (not listed in any attribute map): Curve.parts re-derives the
+# cells, coordinate_reference_system edits the metadata
+VIEW_SETTERS = ("parts", "coordinate_reference_system")
+
+
 def has_setter(cls, name) -> bool:
     prop = getattr(cls, name, None)
     return isinstance(prop, property) and prop.fset is not None
@@ -47,11 +52,13 @@ def discover_pairs(object_classes=None, group_classes=None):
         for attr in entity_attrs(cls):
             if attr not in EXCLUDED and has_setter(cls, attr):
                 pairs.append(("object", cname, attr))
+        pairs += [("object", cname, attr) for attr in VIEW_SETTERS if has_setter(cls, attr)]
     for cname in (group_classes or F.GROUP_CLASSES + ["DrillholeGroup"]):
         cls = F.get_class(cname)
         for attr in entity_attrs(cls):
             if attr not in EXCLUDED and has_setter(cls, attr):
                 pairs.append(("group", cname, attr))
+        pairs += [("group", cname, attr) for attr in VIEW_SETTERS if has_setter(cls, attr)]
     for cname in DATA_CLASSES:
         cls = getattr(gdata, cname)
         for attr in entity_attrs(cls):
@@ -189,6 +196,8 @@ def make_value(owner, cname, attr, seed, ent):
         arr = np.asarray([[(pick(r * width + c) + r) % n_vert for c in range(width)] for r in range(rows)],
                          dtype="uint32")
         return arr, None
+    if attr == "coordinate_reference_system":
+        return {"Code": f"EPSG:{26900 + abs(pick(0))}", "Name": STRINGS[pick(1) % len(STRINGS)]}, None
     if attr == "parts":
         n_vert = ent.n_vertices or 0
         return (np.asarray([pick(i) % 2 for i in range(n_vert)], dtype="int32") if n_vert else None), "skip-getter"
@@ -293,6 +302,7 @@ def assignment_program(draw, pairs_by_class):
     return {
         "owner": owner, "cls": cname,
         "geom": {"n": draw(st.integers(2, 5)), "g": draw(st.lists(st.integers(-9, 9), min_size=3, max_size=10))},
-        "ops": [{"attr": a, "seed": draw(st.lists(st.integers(-9, 9), min_size=1, max_size=6))} for a in chosen],
-        "reload_first": draw(st.booleans()),
+        "ops": [{"attr": a, "seed": draw(st.lists(st.integers(-9, 9), min_size=1, max_size=6)),
+                 "inplace": draw(st.integers(0, 3)) == 0} for a in chosen],
+        "reload_first": draw(st.booleans()), "blind": draw(st.integers(0, 3)) == 0,
     }
